@@ -78,7 +78,7 @@ def _inv_case(ctx, struct, ops, cplx, subset, prestate, legflags, consume):
 
 # operations for which the symbolic choice of the stored-block subset is run in the quick tier (missing blocks matter most)
 CHOOSE_OPS = {('add', 'same'), ('tensordot', 'full'), ('inner', 'range'), ('transpose', 'none'), ('combine_legs', 'all'), ('take_slice', 'one'),
-              ('iproject', 'mask'), ('ipurge_zeros', 'cutoff'), ('iadd', 'permuted'), ('trace', 'rank3_labels')}
+              ('iproject', 'mask'), ('ipurge_zeros', 'cutoff'), ('trace', 'rank3_labels')}
 # core selection for the slow Z3 structure in the quick tier
 CORE_OPS = CHOOSE_OPS | {('tensordot', 'labels'), ('outer', 'd'), ('conj', 'd'), ('itranspose', 'perm'), ('iswapaxes', 'first_last'), ('sub', 'same'),
                          ('split_legs', 'unsorted'), ('getitem', 'negstep'), ('setitem', 'slice_npc'), ('sort_legcharge', 'default'),
@@ -126,11 +126,12 @@ def CASES(tier, seed):
         if quick:  # Tier A quick: core selection (every variant runs in Tier B and in the thorough tier)
             sel = CHOOSE_OPS if (cb['subset'] == 'choose' or st['mods'][0] == 3) else CORE_OPS
             ops = [o for o in ops if tuple(o) in sel and not (tuple(o) == ('ipurge_zeros', 'cutoff') and st['mods'][0] != 1)]
-        target = 3 if cb['subset'] == 'choose' else 9
+        target = 1 if cb['subset'] == 'choose' else 9
         for ci, chunk in enumerate(P1._balanced(ops, P1.COST_A, target)):
             cases.append(dict(name=f"A[mod={st['mods']},qconj={[l['qconj'] for l in st['legs']]},{cb['subset']},{cb['prestate']},"
                                    f"flags={cb['legflags']},opt={cb['opt_level']}]ops{ci}:{P1._opsname(chunk)}",
-                              fn='inv_case', params=dict(struct=st, ops=chunk, cplx=(si % 2 == 0), consume=list(QUICK_CONSUMERS if quick else ALL_CONSUMERS),
+                              fn='inv_case', params=dict(struct=st, ops=chunk, cplx=(si % 2 == 0),
+                                                         consume=list((('add', 'sort_legcharge') if cb['subset'] == 'choose' else QUICK_CONSUMERS) if quick else ALL_CONSUMERS),
                                                          **cb), opts=OA))
     OB = dict(max_paths=40000, max_wall_s=220 if quick else 1600, validate_paths=2, hard_timeout_s=235 if quick else 1750)
     for si, st in enumerate(P1.structs_B(tier, seed)):
